@@ -97,8 +97,8 @@ pub fn judge(c: &Case, st: &mut Stats) -> Verdict {
         }
     }
     let run = crate::engine::guard(|| {
-        // the writer's buffer has 0 .. 4096 bytes of spare capacity (a Vec that was reserved, resized or reused), by seed
-        let spare = [0usize, 0, 1, 13, 64, 100, 4096][(c.prefill_seed as usize / 2) % 7];
+        // the writer's buffer has 0 .. 70 000 bytes of spare capacity (a Vec that was reserved, resized or reused), by seed
+        let spare = [0usize, 0, 1, 13, 64, 100, 4096, 70_000][(c.prefill_seed as usize / 2) % 8];
         let mut buf = Vec::with_capacity(prefill.len() + spare);
         buf.extend_from_slice(&prefill);
         // one writer in three starts from `Writer::default()` and receives what it "already holds" through its own
